@@ -109,6 +109,91 @@ fn exec_c06_entropy(p: &Profile, cfg: &RunCfg) -> (RunOut, MonOut) {
     (out, mon)
 }
 
+fn exec_c05(p: &Profile, cfg: &RunCfg) -> (RunOut, MonOut) {
+    let (out, _w, _s) = run_sm(p, cfg);
+    let mon = c05::monitor(&out);
+    (out, mon)
+}
+fn exec_c11(p: &Profile, cfg: &RunCfg) -> (RunOut, MonOut) {
+    let (mut out, _w, _s) = run_sm(p, cfg);
+    if p.name == "c11-wake" {
+        out.stats.insert("profile.far_timers".into(), 1);
+    }
+    let mon = c11::monitor(&out);
+    (out, mon)
+}
+fn exec_c12(p: &Profile, cfg: &RunCfg) -> (RunOut, MonOut) {
+    let (out, _w, _s) = run_sm(p, cfg);
+    let mon = c12::monitor(&out);
+    (out, mon)
+}
+
+pub fn c11_profile() -> Profile {
+    let mut p = Profile::base("c11");
+    p.mode = Mode::Start;
+    p.max_checks = 4;
+    p.apps_max = 2;
+    p.clients_max = 4;
+    p.requests_max = 6;
+    p.drop_handles_permille = 80;
+    p.drop_stream_permille = 60;
+    p.lazy_consumer_permille = 150;
+    p.latency = [5, 4, 1];
+    p.net.none = 800;
+    p.net.transport = 100;
+    p.net.status = 100;
+    p.srv.app_outcome = [30, 60, 4, 3, 3];
+    p.installer.plan_fail_permille = 50;
+    p.installer.app_result = [85, 10, 5];
+    p.installer.reboot = [10, 60, 30];
+    p.policy.check = [70, 5, 10, 10, 5];
+    p.policy.can_start = [85, 8, 7];
+    p.policy.reboot_needed_permille = 750;
+    p.policy.reboot_allowed_permille = 300;
+    p.next_delays_s = vec![0, 1, 60, 3600, 18000];
+    p
+}
+
+fn c05_batches(tier: &str) -> Vec<Batch> {
+    let mut p = c11_profile();
+    p.name = "c05".into();
+    p.invalid_app_permille = 60;
+    p.policy.params_vary = 450;
+    p.policy.check = [55, 15, 10, 10, 10];
+    p.policy.can_start = [60, 20, 20];
+    p.installer.app_result = [70, 10, 20];
+    p.drop_stream_permille = 0;
+    vec![Batch { name: "c05-main".into(), profile: p, runs: scale(tier, 15_000, 300_000), exec: exec_c05, strata: None }]
+}
+fn c11_batches(tier: &str) -> Vec<Batch> {
+    let mut wake = c11_profile();
+    wake.name = "c11-wake".into();
+    wake.next_delays_s = vec![36000, 72000];
+    wake.policy.timing_kind = [1, 1, 0];
+    wake.policy.min_wait_permille = 0;
+    wake.lazy_consumer_permille = 0;
+    wake.lateness = [1, 0, 0, 0];
+    wake.latency = [5, 5, 0];
+    wake.policy.check = [60, 0, 15, 15, 10];
+    wake.drop_handles_permille = 0;
+    wake.drop_stream_permille = 0;
+    wake.max_checks = 2;
+    vec![
+        Batch { name: "c11-main".into(), profile: c11_profile(), runs: scale(tier, 15_000, 300_000), exec: exec_c11, strata: None },
+        Batch { name: "c11-wake".into(), profile: wake, runs: scale(tier, 5_000, 100_000), exec: exec_c11, strata: None },
+    ]
+}
+fn c12_batches(tier: &str) -> Vec<Batch> {
+    let mut p = c11_profile();
+    p.name = "c12".into();
+    p.policy.min_wait_permille = 600;
+    p.lateness = [3, 3, 2, 2];
+    p.policy.check = [60, 5, 15, 10, 10];
+    p.drop_stream_permille = 0;
+    p.requests_max = 3;
+    vec![Batch { name: "c12-main".into(), profile: p, runs: scale(tier, 15_000, 300_000), exec: exec_c12, strata: None }]
+}
+
 fn c01_batches(tier: &str) -> Vec<Batch> {
     vec![Batch { name: "c01-main".into(), profile: Profile::base("c01"), runs: scale(tier, 20_000, 600_000), exec: crate::cup::run_cup, strata: None }]
 }
@@ -325,8 +410,11 @@ pub fn all() -> Vec<PropDef> {
         def("C01", "two-party exchanges (real RequestBuilder + StandardCupv2Handler vs independent signer) with one in-flight mutation each (bit flips of body / retained request / nonce, key id change, hex-digit flips of either ETag half at head and tail, swap, truncation, re-signing, digest re-composition, arbitrary and random ETag text, re-wrapping, replay for another request); verdict compared with the independent reference verifier in both directions; distinct = (mutation kind, verdict, ETag encoding)", vec!["p256/ecdsa/sha2/hex define 'valid signature' (ECDSA (r, n-s) malleability is, consistently, valid)", "http::HeaderValue defines which ETag bytes can arrive at all"], c01_batches),
         def("C02", "seeded whole-flow runs with the real CUP handler; at every request position the adversary may deliver a forgery (unsigned, attacker-signed, tampered body/ETag, replay, forged status with X-Retry-After); a case is one unauthenticated exchange (or authentic one for the dual rule); distinct = (tamper kind, request kind, header present)", vec!["ground truth 'authentic' comes from the independent reference verifier (p256/sha2 trusted)", "a replay is never authentic because nonces and request ids are fresh (checked by C03/C06)"], c02_batches),
         def("C03", "every request sent in whole-flow CUP runs over service-URL variants (path, query, port, IPv6 literal, trailing ?); a case is one request; distinct = (configured URL, query pair count)", vec!["independent string-level URL split"], c03_batches),
+        def("C05", "policy answer sequences (5 check decisions with varying request parameters, 3 install decisions, reboot needed/allowed) interleaved with timers and control requests, including invalid app sets; a case is one request / decision; distinct = parameter vectors and decision kinds", vec!["pings during a reboot wait are scheduled background contacts with fixed parameters (not covered by the parameter rule)"], c05_batches),
         def("C06", "per-attempt outcome sequences (stratified over the adversary alphabet^3 for the first check) with poll-interval interplay; entropy differential re-runs for jitter; a case is one completed check; distinct = attempt-outcome sequence x initial poll state", vec!["X-Retry-After reading per statement; '+N' either way"], c06_batches),
         def("C07", "header-value classes x status x request kind with probe restarts after every commit and real crashes; a case is one processed response; distinct = (old value, new value, status, request kind)", vec!["'+N' and duplicate headers: any listed reading accepted", "commit is atomic; reads see uncommitted writes"], c07_batches),
+        def("C11", "up to 4 handle clones issuing up to 6 requests released inside in-flight operations (timer waits, HTTP exchanges, policy questions, plan creation, install steps, reboot wait) with batch readiness so select! order (a seeded decision) matters; handles and stream dropped at drawn moments; interval-style oracle on global sequence numbers; a case is one request; distinct = (reply, options)", vec!["a request left unanswered when the run is cut is not judged", "wake-up without timer is judged in a profile whose timers are >= 10 h away and whose operation latencies are < 1 min"], c11_batches),
+        def("C12", "check timings over {wall, monotonic, both} x {minimum wait or none}; timers fire late and in any order; throttled iterations; reboot waits with pings; a case is one wait; distinct = timing shape", vec!["timers never fire early"], c12_batches),
         def("C08", "histories of checks and reboot-wait pings over all outcome classes on a disk with a volatile write cache; probe restart after every commit; real crashes at drawn interactions with rebuild; a case is one check/ping outcome; distinct = (ground-truth outcome, announced result class)", vec!["commit is atomic; reads see uncommitted writes (Storage contract)", "which clock reading inside the check becomes the last-contact time is left open"], c08_batches),
         def("C09", "responses carrying every subset of cohort fields (absent vs empty) and any daystart for any subset/order of a 1-4 app set plus unknown ids, interleaved with failed checks, pings, crashes and embedder presets; probe restarts at every commit; a case is one successful check or ping; distinct = (apps, named, changed, daystart present)", vec!["server documents carry unique app ids"], c09_batches),
         PropDef {
